@@ -27,6 +27,8 @@ def build(table="module"):
     S.load_module(vgs)
     import spec.registry_spec as rgs
     S.load_module(rgs)
+    import spec.server_spec as svs
+    S.load_module(svs)
     import rpyc.core.channel as ch
     S.consts["C"] = tables.frame_consts_from_module(ch)
     import rpyc.core.stream as stream_mod
@@ -49,7 +51,7 @@ def build(table="module"):
     S.consts["T"] = T
     S.consts["PERM_INVARIANT"] = bs.PERM_INVARIANT
     st = store.Store()
-    for m in ("brine", "compat", "externals", "stream", "channel", "protocol_attr", "colls", "protocol_box", "protocol_core", "async_", "protocol_close", "lib", "netref", "protocol_handlers", "scenarios", "vinegar", "classic", "registry"):
+    for m in ("brine", "compat", "externals", "stream", "channel", "protocol_attr", "colls", "protocol_box", "protocol_core", "async_", "protocol_close", "lib", "netref", "protocol_handlers", "scenarios", "vinegar", "classic", "registry", "server"):
         importlib.import_module("contracts." + m).register(st)
     lib = libmodels.Lib(S)
     ex = engine.Executor(st, REPO, S, lib)
